@@ -45,7 +45,8 @@ Definition carriers_of (fs : list Factor) : list Carrier :=
 
 Definition exp_carriers : list (Carrier * Source) := [(ELECTRICIDAD, INSITU); (EAMBIENTE, INSITU); (TERMOSOLAR, INSITU)].
 
-Fixpoint ensure_exports (fs : list Factor) (cs : list (Carrier * Source)) : res (list Factor) :=
+(** [wf]: the carriers of the set before normalisation; a carrier the set does not mention needs no export factors *)
+Fixpoint ensure_exports (wf : list Carrier) (fs : list Factor) (cs : list (Carrier * Source)) : res (list Factor) :=
   match cs with
   | [] => Ok fs
   | (c, s) :: cs =>
@@ -53,8 +54,8 @@ Fixpoint ensure_exports (fs : list Factor) (cs : list (Carrier * Source)) : res 
                  | Some v => ensure_wfactor (ensure_wfactor fs (c, s, A_RED, STEP_A) v []) (c, s, A_NEPB, STEP_A) v []
                  | None => fs end in
       match lookk fs1 (grid_key c) with
-      | Some g => ensure_exports (ensure_wfactor (ensure_wfactor fs1 (c, s, A_RED, STEP_B) g []) (c, s, A_NEPB, STEP_B) g []) cs
-      | None => Err MissingFactor
+      | Some g => ensure_exports wf (ensure_wfactor (ensure_wfactor fs1 (c, s, A_RED, STEP_B) g []) (c, s, A_NEPB, STEP_B) g []) cs
+      | None => if existsb (Carrier_beq c) wf then Err MissingFactor else ensure_exports wf fs1 cs
       end
   end.
 
@@ -66,7 +67,7 @@ Definition normalize_factors (fs : list Factor) (d1 d2 : RNC) : res (list Factor
   let fs := update_wfactor fs K_TERMO_RED one [] in
   let fs := if existsb (Carrier_beq ELECTRICIDAD) wf_carriers then update_wfactor fs K_EL_INSITU one [] else fs in
   if negb (forallb (fun c => existsb (kmatch (grid_key c)) fs) wf_carriers) then Err MissingFactor else
-  do fs <- ensure_exports fs exp_carriers;
+  do fs <- ensure_exports wf_carriers fs exp_carriers;
   let fs := ensure_wfactor fs K_RED1 d1 [] in
   Ok (ensure_wfactor fs K_RED2 d2 []).
 
